@@ -7,13 +7,14 @@ SPEC = {
         "k*10+3": "send k: number of resolver calls differs from the two-phase machine (1 after Ok, 0 after a rejection)",
     },
     "corr_name": "Args.Model (vtj, apply_defaults, parse, prepare) vs graphql.Parse / PrepareQuery / Execute with reflect-built argument structs",
-    "coq_modules": ["Args.Model", "Args.Spec", "Args.Proofs", "Args.ProofsReject", "Args.ProofsInst"],
+    "coq_modules": ["Args.Model", "Args.Spec", "Args.Proofs", "Args.ProofsReject", "Args.ProofsInst", "Gen.ArgParsers", "Args.Table"],
     "harness_timeout": {"quick": 600, "thorough": 3000},
     "trusted_base": [
         "Coq 8.16.1 kernel and vm_compute (no native_compute); Print Assumptions: closed under the global context",
         "hand-written model coq/theories/Args/Model.v of graphql/parser.go (valueToJson, argsToJson, variable defaults), "
         "graphql/schemabuilder/input.go (every argParser) and the Parse -> PrepareQuery -> Execute order of graphql/http.go, "
         "tied to the code by the correspondence check only",
+        "tools/gentables (go/ast extractor of the scalarArgParsers table into coq/theories/Gen/ArgParsers.v, re-run on every check)",
         "Go harness harness/cmd/c18 (type and value generators, reflect.StructOf / MakeFunc schema, type-directed dump, oracle, "
         "Coq term printer); its catalogue of named types (named scalars, three enums, a TextUnmarshaler, five nested structs)",
         "third-party code modelled, not verified: graphql-go lexer/parser (query text -> AST, strconv for number tokens), "
@@ -43,3 +44,31 @@ SPEC = {
         "technique": "Coq proof over executable model + differential correspondence check (vm_compute) + property oracle on implementation outputs",
     },
 }
+
+
+def regen_tables():
+    """Re-extract the scalarArgParsers table of the tree under test into coq/theories/Gen/ArgParsers.v
+    (written only when it changed; under the shared Coq lock so that no build reads a half-written file).
+    A failure leaves a table the theorem scalar_table_covered cannot match: the check fails closed."""
+    import os
+    from vlib import common as C
+    tool = os.path.join(C.VERIF, "tools", "gentables")
+    out = os.path.join(C.COQ, "theories", "Gen", "ArgParsers.v")
+    os.makedirs(os.path.join(C.BUILD, "bin"), exist_ok=True)
+    binp = os.path.join(C.BUILD, "bin", "gentables")
+    with C.Lock("go"):
+        rc, log = C.sh(["go", "build", "-o", binp, "."], cwd=tool, env=C.GOENV, timeout=600)
+    if rc != 0:
+        print("gentables does not build:\n" + log[-2000:])
+        return False
+    with C.Lock("coq", shared=True):
+        rc, log = C.sh([binp, "-repo", C.REPO, "-out", out], cwd=C.VERIF, timeout=120)
+    if rc != 0:
+        print("gentables failed:\n" + log[-2000:])
+    return rc == 0
+
+
+def run(tier, seed, replay=None):
+    from vlib import runner
+    regen_tables()
+    return runner.run(SPEC, tier, seed, replay)
